@@ -48,7 +48,8 @@ Live(sc) == UNION { OutNotes(e.tx) : e \in { e \in OnChain : e.h \in sc } }
 \* wallet-relevant transactions of scanned blocks: they pay the wallet, or spend a note whose
 \* receipt is scanned too (the nullifier of a note whose transaction a rewind un-mined is not
 \* tracked until its block is scanned again; until then the note is an orphan, see Counted)
-Relevant(sc) == { e \in OnChain : e.h \in sc /\ (OutNotes(e.tx) # {} \/ (Spends(e.tx) \cap Live(sc)) # {}) }
+RelevantL(sc, live) == { e \in OnChain : e.h \in sc /\ (OutNotes(e.tx) # {} \/ (Spends(e.tx) \cap live) # {}) }
+Relevant(sc) == RelevantL(sc, Live(sc))
 
 ----------------------------------------------------------------------------------------
 \* environment
@@ -75,8 +76,9 @@ UpdateTip(h) ==
 Scan(from, n) ==
     LET R   == { h \in from..(from + n - 1) : h <= top }
         sc  == scanned \cup R
-        kn  == known \cup Live(sc)
-        rel == Relevant(sc)
+        live == Live(sc)
+        kn  == known \cup live
+        rel == RelevantL(sc, live)
         T   == { e.tx.t : e \in rel }
         hgt(t) == (CHOOSE e \in rel : e.tx.t = t).h
     IN  /\ scanned' = sc
@@ -86,7 +88,7 @@ Scan(from, n) ==
                       THEN [mined |-> hgt(t),
                             minobs |-> IF t \in DOMAIN txs THEN Min2(txs[t].minobs, hgt(t)) ELSE hgt(t)]
                       ELSE txs[t]]
-        /\ links' = links \cup UNION { { << m, e.tx.t >> : m \in Spends(e.tx) \cap Live(sc) } : e \in rel }
+        /\ links' = links \cup UNION { { << m, e.tx.t >> : m \in Spends(e.tx) \cap live } : e \in rel }
         /\ maxFrom' = IF R = {} THEN maxFrom ELSE Max2(maxFrom, from)
         /\ UNCHANGED << chain, top, ninfo, tip, taint >>
 
